@@ -148,14 +148,16 @@ def waived (w : Bool) (a : Anchor) : Anchor := if w then .none else a
 
 /-! ## Semantics -/
 
-/-- After the last item: nothing more is bound; with a trailing anchor no named sibling remains. -/
+/-- After the last item: nothing more is bound; with a trailing anchor no named sibling remains
+after the last node that was matched (`last` is already false when no child was matched at all:
+"the constraint applies to the nearest node that the pattern does match"). -/
 def EndOk (last : Bool) (sibs : List VT) (b : Binding) : Prop :=
   b = [] ∧ (last = true → ∀ c ∈ sibs, c.info.named = false)
 
 mutual
   def SatPat : Pat → VT → Binding → Prop
     | .node t neg kids last, n, b =>
-      testNode t n.info = true ∧ negOk neg n = true ∧ SatItems kids last false n.kids b
+      testNode t n.info = true ∧ negOk neg n = true ∧ SatItems kids last false false n.kids b
     | .alt alts, n, b => SatAlts alts n b
   def SatAlts : List Item → VT → Binding → Prop
     | [], _, _ => False
@@ -163,10 +165,12 @@ mutual
   def SatItem : Item → VT → Binding → Prop
     | .mk _ f p _ caps, n, b =>
       fieldOk f n.info = true ∧ ∃ b', SatPat p n b' ∧ b = caps.map (fun c => (c, n.info.id)) ++ b'
-  def SatItems : List Item → Bool → Bool → List VT → Binding → Prop
-    | [], last, _, sibs, b => EndOk last sibs b
-    | it :: rest, last, w, sibs, b =>
-      Seq it.quant (waived w it.imm) (SatItem it) (SatItems rest last true) (SatItems rest last false) sibs b
+  /-- `w`: the previous item matched zero nodes (its anchor to us is waived);
+  `any`: some earlier item of this node pattern matched a node. -/
+  def SatItems : List Item → Bool → Bool → Bool → List VT → Binding → Prop
+    | [], last, _, any, sibs, b => EndOk (last && any) sibs b
+    | it :: rest, last, w, any, sibs, b =>
+      Seq it.quant (waived w it.imm) (SatItem it) (SatItems rest last true any) (SatItems rest last false true) sibs b
 end
 
 /-! ## Enumeration -/
@@ -177,7 +181,7 @@ def endOk (last : Bool) (sibs : List VT) : List Binding :=
 mutual
   def matchPat : Pat → VT → List Binding
     | .node t neg kids last, n =>
-      if testNode t n.info && negOk neg n then matchItems kids last false n.kids else []
+      if testNode t n.info && negOk neg n then matchItems kids last false false n.kids else []
     | .alt alts, n => matchAlts alts n
   def matchAlts : List Item → VT → List Binding
     | [], _ => []
@@ -185,10 +189,10 @@ mutual
   def matchItem : Item → VT → List Binding
     | .mk _ f p _ caps, n =>
       if fieldOk f n.info then (matchPat p n).map fun b' => caps.map (fun c => (c, n.info.id)) ++ b' else []
-  def matchItems : List Item → Bool → Bool → List VT → List Binding
-    | [], last, _, sibs => endOk last sibs
-    | it :: rest, last, w, sibs =>
-      seq it.quant (waived w it.imm) (matchItem it) (matchItems rest last true) (matchItems rest last false) sibs
+  def matchItems : List Item → Bool → Bool → Bool → List VT → List Binding
+    | [], last, _, any, sibs => endOk (last && any) sibs
+    | it :: rest, last, w, any, sibs =>
+      seq it.quant (waived w it.imm) (matchItem it) (matchItems rest last true any) (matchItems rest last false true) sibs
 end
 
 mutual
